@@ -51,6 +51,28 @@ def scores_part(ck, tier):
         except Exception as ex:
             ck.violation("model-selection call raised", {**idn, "error": repr(ex)[:300]}, site="GpRegressor.scores")
             continue
+        # whole-number hyper-parameters given as an INTEGER array: the scores and gradients of the equal float vector
+        if True:
+            try:
+                with np.errstate(all="ignore"):
+                    hr = np.round(np.asarray(hp, dtype=float))          # (the nearest whole-number vector; its float form is the reference)
+                    r_lml2, r_g_lml = gp.marginal_likelihood_gradient(hr.copy())
+                    r_loo2, r_g_loo = gp.loo_likelihood_gradient(hr.copy())
+                    lml_r, loo_r = float(gp.marginal_likelihood(hr.copy())), float(gp.loo_likelihood(hr.copy()))
+                    for form, hpi in (("int64 array", hr.astype(np.int64)), ("int32 array", hr.astype(np.int32))):      # (lists are not an accepted form for every kernel)
+                        vi, gi = gp.marginal_likelihood_gradient(hpi)
+                        vo, go = gp.loo_likelihood_gradient(hpi)
+                        ok_i = (np.allclose(np.asarray(gi, dtype=float), np.asarray(r_g_lml, dtype=float), rtol=1e-12, atol=1e-12, equal_nan=True)
+                                and np.allclose(np.asarray(go, dtype=float), np.asarray(r_g_loo, dtype=float), rtol=1e-12, atol=1e-12, equal_nan=True)
+                                and np.allclose([float(vi), float(vo), float(gp.marginal_likelihood(hpi)), float(gp.loo_likelihood(hpi))],
+                                                [float(r_lml2), float(r_loo2), lml_r, loo_r], rtol=1e-12, atol=1e-12, equal_nan=True))
+                        if not ok_i:
+                            ck.violation("integer-typed hyper-parameters give the scores and gradients of the equal float hyper-parameters",
+                                         {**idn, "given_as": form, "gradient_float": np.asarray(r_g_lml, dtype=float), "gradient_integer": np.asarray(gi)},
+                                         site="GpRegressor.marginal_likelihood_gradient:dtype")
+                            break
+            except Exception as ex:
+                ck.violation("model-selection call raised (integer-typed hyper-parameters)", {**idn, "error": repr(ex)[:300]}, site="GpRegressor.scores")
         nm = len(pb["mean"]["th"])
         want_lml = sval(c["lml"])
         mag = SL.magnitude(c["lml"])
